@@ -44,7 +44,10 @@ def cf_jobs(lps, tier, seed, ops=FULL_OPS, over=None, checks=None, invariants=No
             common["invariants"] = invariants
         if properties is not None:
             common["properties"] = properties
-        depth = over.get("MaxDepth", 4 if tier == "thorough" else 3)
+        # depth 4 exhaustively only for the smaller alphabets: with warm_start / reject / several query sizes the emitting TLC
+        # run does not finish in the time allowed; the simulation walks of the same model go to depth 9
+        small = len(ops) <= 6 and len(over.get("QueryRows", {0})) <= 2 and "reject" not in ops
+        depth = over.get("MaxDepth", 4 if tier == "thorough" and small else 3)
         if bfs:
             o = dict(over)
             o.update(Ops=set(ops), MaxDepth=depth, MaxHist=over.get("MaxHist", 4 if tier == "thorough" else 3))
